@@ -127,7 +127,7 @@ def _preexec(fsize, ignore_sigpipe, as_limit):
 
 def run(argv, stdin=b'', env=None, cwd=None, timeout=DEFAULT_TIMEOUT, fsize=None,
         trace=False, stdout_file=None, stdout_pipe_limit=None, as_limit=None,
-        ignore_sigpipe=False, max_output=64 << 20):
+        ignore_sigpipe=False, max_output=64 << 20, stderr_path=None):
     """Run argv.  stdout_file: path to which stdout is redirected (for
     RLIMIT_FSIZE faults); stdout_pipe_limit: close the read end of stdout
     after that many bytes (EPIPE fault, SIGPIPE ignored in the child)."""
@@ -153,8 +153,17 @@ def run(argv, stdin=b'', env=None, cwd=None, timeout=DEFAULT_TIMEOUT, fsize=None
         so = sof
     if stdout_pipe_limit is not None:
         ignore_sigpipe = True
+    sef = None
+    if stderr_path is not None:
+        # standard error goes to a device / file instead of our pipe (e.g. /dev/full)
+        sef = open(stderr_path, 'wb')
+        if so is subprocess.PIPE:
+            so_tmp = tempfile.TemporaryFile()
+            so = so_tmp
+        else:
+            so_tmp = None
     try:
-        p = subprocess.Popen(argv, stdin=subprocess.PIPE, stdout=so, stderr=subprocess.PIPE,
+        p = subprocess.Popen(argv, stdin=subprocess.PIPE, stdout=so, stderr=sef if sef is not None else subprocess.PIPE,
                              env=e, cwd=cwd, pass_fds=pass_fds, close_fds=True,
                              preexec_fn=_preexec(fsize, ignore_sigpipe, as_limit))
     except OSError as ex:
@@ -185,6 +194,19 @@ def run(argv, stdin=b'', env=None, cwd=None, timeout=DEFAULT_TIMEOUT, fsize=None
                 _, err = p.communicate()
                 r.timed_out = True
             out = got
+        elif sef is not None:
+            try:
+                p.communicate(stdin, timeout=timeout)
+            except subprocess.TimeoutExpired:
+                p.kill()
+                p.communicate()
+                r.timed_out = True
+            out, err = b'', b''
+            if so_tmp is not None:
+                so_tmp.seek(0)
+                out = so_tmp.read(max_output)
+                so_tmp.close()
+            sef.close()
         elif so is subprocess.PIPE:
             out, err, r.timed_out, r.flooded = _pump(p, stdin, timeout, max_output)
         else:
